@@ -261,7 +261,7 @@ def replay(pid, payload, seed):
 
 # ================================================================= engines
 
-NAME_ALPHABET = ["p", "s", "/", "-", "é", "P"]
+NAME_ALPHABET = ["p", "s", "/", "-", "é", "P", "\\", "'"]
 
 
 def strings_upto(alpha, n):
@@ -290,7 +290,7 @@ def eng_names_pure(ctx):
             [gen.sname("p", i) for i in gen.ODD_VALID_IDS]:
         ops.append("TN " + hx(s))
         ops.append("SN " + hx(s))
-    chars = list("ps/-é0tPTÉ") + ["topics", "subscriptions", "projects", "/topics/", "/subscriptions/", "projects/"]
+    chars = list("ps/-é0tPTÉ\\'\"\t\n ") + ["\u0301", "\x7f", "topics", "subscriptions", "projects", "/topics/", "/subscriptions/", "projects/"]
     for _ in range(ctx.n(3000, 50000)):
         s = "".join(rng.choice(chars) for _ in range(rng.randrange(0, 9)))
         if rng.random() < 0.7:
@@ -445,6 +445,16 @@ def eng_deadline_pure(ctx):
             ops.append("DL %d" % (10 * gen.S + ms * gen.MS + off))
     for _ in range(ctx.n(2000, 100000)):
         ops.append("DL %d" % rng.randrange(0, 700 * gen.S))
+    # a server that has been up for a while: around every power of two of the microsecond count from 2^24 (16.8 s)
+    # to 2^52 (142 years), and hours / days / a year
+    for e in range(24, 53):
+        for d in (-1000 * 1001, -1001, -1, 0, 1, 999, 1000, 1001, 37 * gen.MS + 613, 10 * gen.S + 41 * gen.MS):
+            ops.append("DL %d" % (2 ** e * 1000 + d))
+    for secs in (3600, 4294, 4295, 4320, 7200, 86400, 30 * 86400, 365 * 86400):
+        for d in (0, 1, 41 * gen.MS + 7, 99 * gen.MS + 999999):
+            ops.append("DL %d" % (secs * gen.S + d))
+    for _ in range(ctx.n(500, 20000)):
+        ops.append("DL %d" % rng.randrange(0, 400 * 86400 * gen.S))
     dx = [-2147483648, -1, 0, 1, 9, 10, 11, 599, 600, 601, 2147483647] + [rng.randrange(-700, 700) for _ in range(200)]
     for k in (1, 2, 3, 255, 256, 32767):              # values whose low 16 bits are small
         dx += [k * 65536 + d for d in (-1, 0, 1, 2, 30, 599, 600, 601)]
@@ -698,6 +708,24 @@ def eng_control_shape(ctx):
     return ctx.seq("control-shape", cases, relevant=DATA_OPS | {"GT"}, triggers={"SS"}, monitor=M.mon_control_shape, always_monitor=True)
 
 
+def eng_publish_vs_delete_topic(ctx):
+    """A Publish racing the DeleteTopic of its topic."""
+    cases = gen.publish_vs_delete_topic_cases(range(0, 10) if not ctx.thorough else range(0, 40))
+    return ctx.seq("publish-vs-delete-topic", cases, triggers={"JOIN"}, monitor=M.mon_ids_unique, always_monitor=True, model_free=True)
+
+
+def eng_delete_both(ctx):
+    """DeleteTopic racing DeleteSubscription, with consumers waiting on the subscription."""
+    cases = gen.delete_both_cases(range(0, 8) if not ctx.thorough else range(0, 30))
+    return ctx.seq("delete-both", cases, triggers={"JOIN"}, monitor=M.mon_delete_both, always_monitor=True, model_free=True)
+
+
+def eng_ordering_keys(ctx):
+    """Publish requests whose messages carry ordering keys (the emulator has no ordered delivery: keys change nothing)."""
+    cases = gen.ordering_key_cases()
+    return ctx.seq("ordering-keys", cases, triggers={"PULL"}, monitor=M.mon_request_order, always_monitor=True, model_free=True)
+
+
 def eng_topicstress(ctx):
     """OS threads creating topics at the same instant (barrier), then one Publish per topic: message ids must be
     pairwise distinct and each subscription must receive its own topic's message.  A stress search: it can only find."""
@@ -814,6 +842,18 @@ def eng_datastress(ctx):
                    ["published", "deliveries", "lost", "dup_ack_ids", "double_lease", "after_ack", "wrong_payload"], judge)
 
 
+def eng_mailstress(ctx):
+    """Multi-thread runtime: four lanes, each round after round: six tasks holding the subscription handle call it in a
+    closed loop while it is deleted; every call must be answered (the shutdown of the actor's mailbox strands nothing).  A stress search."""
+    def judge(v, out):
+        if v["hung"]:
+            return ("C07-pending: after the deletion of a subscription %d of the 6 callers that hold its handle were still "
+                    "without an answer 15 s later (round %d, %d calls answered before)" % (v["pending"], v["rounds"], v["calls"]))
+        return None
+    return _stress(ctx, "mailstress", [ctx.n(6000, 30000), 8], r"MAILSTRESS rounds=(\d+) calls=(\d+) hung=(\d+) pending=(\d+)",
+                   ["rounds", "calls", "hung", "pending"], judge)
+
+
 def eng_grpcstress(ctx):
     """Multi-thread runtime, the real gRPC handlers: consumers on a subscription that two DeleteSubscription calls
     delete at the same time, with Get / Acknowledge racing them.  A stress search: it can only find."""
@@ -910,7 +950,7 @@ def eng_subset_lists(mon, kinds):
 
 reg("C02", [eng_id_lists(M.mon_ack_final, ("ack", "sack", "sackmod")), eng_subset_lists(M.mon_ack_final, ("ack", "sack")), eng_data_enum(M.mon_ack_final, {"ACK"}),
             eng_data_random(M.mon_ack_final, {"ACK"}, streams=True, tag="data-stream-random"),
-            eng_stream_enum(M.mon_ack_final), eng_big_ack, lambda ctx: eng_datastress(ctx)],
+            eng_stream_enum(M.mon_ack_final), eng_big_ack, lambda ctx: eng_datastress(ctx), lambda ctx: eng_abandon(ctx)],
     rule="id-lists: Acknowledge (unary and streaming) with every id list of length 1..3 over {stale, live, live, unknown, "
          "oddly spelled live}, then expiry and drain; data-enum: every sequence over {pub, pub2, pull1, pullN, ack-last, ack-first, ack-unknown, nack, modify, +5.1s, +10.1s} "
          "up to the depth noted, STATS after every step, final drain; data-stream-random: random scripts with unary and "
@@ -956,7 +996,7 @@ reg("C04", [eng_deadline_pure, eng_deadline_probes((None,), M.mon_deadline, "dea
                "has fired by the first 1 ms tick at/after the deadline and then nothing overdue stays leased. " + SEQ_NOTE,
     level_note="Timer behaviour (1 ms ticks, firing order) is tokio's, assumed as modelled; validated by the probe stream.")
 
-reg("C05", [eng_id_lists(M.mon_deadline, ("nack", "mod")), eng_subset_lists(M.mon_deadline, ("nack", "mod")), eng_deadline_pure, eng_deadline_probes((0, 1, 5, 30, 599, 600, 700, -1), M.mon_deadline, "modify-probes"),
+reg("C05", [eng_id_lists(M.mon_deadline, ("nack", "mod", "sackmod")), eng_subset_lists(M.mon_deadline, ("nack", "mod")), eng_deadline_pure, eng_deadline_probes((0, 1, 5, 30, 599, 600, 700, -1), M.mon_deadline, "modify-probes"),
             eng_data_random(M.mon_deadline, {"MOD"}, streams=True, tag="data-stream-random"),
             eng_data_enum(M.mon_deadline, {"MOD"}), eng_modify_batches, eng_stream_enum(M.mon_deadline)],
     rule="DX: parse of every boundary i32 and random values; modify-probes: a lease modified with N in "
@@ -976,7 +1016,8 @@ def eng_push_late(ctx):
 
 
 reg("C09", [eng_codec_pure, eng_payload, eng_data_random(M.mon_payload, {"PULL"}, streams=True, tag="data-stream-random"),
-            eng_push_late, lambda ctx: eng_topicstress(ctx), lambda ctx: eng_many_topics(ctx)],
+            eng_push_late, lambda ctx: eng_topicstress(ctx), lambda ctx: eng_many_topics(ctx),
+            lambda ctx: eng_publish_vs_delete_topic(ctx)],
     rule="codec-pure: MessageId::new on boundary and random (tid, counter) pairs; payload: binary/empty/5 kB data, "
          "non-ASCII and empty attribute keys, two subscriptions, nack and expiry redelivery, topic delete + re-create; "
          "push: the HTTP push body (base64 data incl. bytes that map to the base64 digits 62/63, attributes, id) as "
@@ -1018,7 +1059,7 @@ reg("C10", [lambda ctx: eng_control_enum(ctx), eng_control_random(M.mon_namespac
 reg("C11", [lambda ctx: eng_control_enum(ctx), eng_control_random(M.mon_namespace, {"DT", "DS"}, always=True),
             eng_data_random(M.mon_namespace, {"DS", "DT"}, relevant=CTL_OPS | DATA_OPS, tag="data-random", always=True),
             lambda ctx: eng_create_delete_race(ctx), lambda ctx: eng_racestress(ctx), lambda ctx: eng_abandon(ctx),
-            lambda ctx: eng_nsstress(ctx), lambda ctx: eng_registry_enum(ctx)],
+            lambda ctx: eng_nsstress(ctx), lambda ctx: eng_registry_enum(ctx), lambda ctx: eng_create_vs_delete_topic(ctx)],
     rule="random scripts deleting and re-creating topics and subscriptions with publishes and pulls in between; "
          "ListTopicSubscriptions / GetSubscription / STATS after deletions. non-trivial = a successful delete",
     monitor=M.mon_namespace, title="Deletion keeps topics and subscriptions consistent with each other", design_ref="7/C11",
@@ -1051,7 +1092,8 @@ def eng_cs_late(ctx):
 
 
 reg("C15", [eng_capacity, eng_data_random(M.mon_batch, {"PULL"}, streams=True, tag="data-stream-random"), eng_cs_late,
-            lambda ctx: eng_big_chain(ctx), lambda ctx: eng_boundary_counts(ctx), lambda ctx: eng_orphan_wait(ctx)],
+            lambda ctx: eng_big_chain(ctx), lambda ctx: eng_boundary_counts(ctx), lambda ctx: eng_orphan_wait(ctx),
+            lambda ctx: eng_woken_dropped(ctx)],
     rule="capacity: backlog sizes around 0/1/1000 (thorough: 65535/65536/65541) x max_messages around 1, 1000, 65535, "
          "65536 multiples, i32::MAX; stream-capacity likewise for max_outstanding_messages. non-trivial = non-empty response",
     monitor=M.mon_batch, title="Pull batches respect their size limit and are empty only when allowed", design_ref="7/C15",
@@ -1102,7 +1144,8 @@ def eng_capacity_drain(ctx):
 reg("C01", [lambda ctx: eng_control_enum(ctx),
             eng_data_random(mon_c01, {"PUB"}, streams=True, tag="data-stream-drain", drain=True, always=True),
             eng_control_random(mon_c01, {"PUB"}, drain=True, always=True), eng_data_enum(M.mon_payload, {"PUB"}),
-            eng_capacity_drain, eng_expiry_load, lambda ctx: eng_abandon(ctx), lambda ctx: eng_datastress(ctx)],
+            eng_capacity_drain, eng_expiry_load, lambda ctx: eng_abandon(ctx), lambda ctx: eng_datastress(ctx),
+            lambda ctx: eng_push(ctx)],
     rule="random scripts with several subscriptions per topic, streams, nack/expiry cycles, deletions and re-creations of "
          "topic and subscription names, each followed by a drain (every lease left to run out, every stream read, every "
          "subscription pulled until an empty answer): mon_fanout reads off the implementation's answers that nothing "
@@ -1436,14 +1479,19 @@ def eng_cancel_woken(ctx):
     return ctx.seq("cancel-woken", cases, triggers={"JOIN"}, monitor=M.mon_wait, always_monitor=True, model_free=True)
 
 
+def eng_backed_up_stream(ctx):
+    return ctx.seq("backed-up-stream", gen.backed_up_stream_cases(), triggers={"PUB"}, monitor=M.mon_backed_up,
+                   always_monitor=True, model_free=True)
+
+
 def eng_woken_dropped(ctx):
     cases = gen.woken_dropped_cases() if not ctx.thorough else \
         gen.woken_dropped_cases(fills=tuple(range(0, 34)), polls=(0, 1, 2, 3, 4, 6))
     return ctx.seq("woken-dropped", cases, triggers={"XP"}, monitor=M.mon_wait, always_monitor=True, model_free=True)
 
 
-reg("C06", [eng_wait_enum, eng_wait_random(M.mon_wait, {"SR", "JOIN"}), eng_cancel_woken, eng_woken_dropped, eng_cs,
-            eng_big_chain, eng_mixed_modify_wake],
+reg("C06", [eng_wait_enum, eng_wait_random(M.mon_wait, {"SR", "JOIN"}), eng_cancel_woken, eng_woken_dropped,
+            eng_backed_up_stream, eng_cs, eng_big_chain, eng_mixed_modify_wake],
     rule="wait-enum: every combination of up to three waiting consumers (stream limit 1 / stream limit 10 / blocked "
          "Pull limit 1 / blocked Pull limit 5) x five sequences of availability events (publish 1/3/0, nack, expiry, "
          "ack), every consumer and STATS observed after each event; wait-random: random scripts with several "
@@ -1476,7 +1524,8 @@ reg("C06", [eng_wait_enum, eng_wait_random(M.mon_wait, {"SR", "JOIN"}), eng_canc
                "the sequential one.")
 
 reg("C12", [eng_delete_release, eng_wait_random(M.mon_release, {"DS"}), eng_burst_shapes, eng_cs,
-            lambda ctx: eng_abandon(ctx), lambda ctx: eng_grpcstress(ctx), lambda ctx: eng_create_delete_race(ctx)],
+            lambda ctx: eng_abandon(ctx), lambda ctx: eng_grpcstress(ctx), lambda ctx: eng_create_delete_race(ctx),
+            lambda ctx: eng_delete_both(ctx)],
     rule="delete-release: per runtime seed, DeleteSubscription with two streams (request side open / closed), a blocked "
          "Pull, consumers of another subscription, and (variants) ack/nack/pull/get/publish calls started without "
          "letting the runtime settle, then every consumer observed; wait-random as for C06. non-trivial = a "
@@ -1614,7 +1663,7 @@ reg("C16", [eng_abandon, eng_burst, lambda ctx: eng_create_delete_race(ctx), lam
                "(deltio_suspension_points_as_modelled), not proved semantically.",
     generated=[("lock-discipline", lockgate.lock_gate)])
 
-reg("C07", [eng_burst, eng_abandon, eng_pull_limit, eng_pushstress, eng_deletestress, eng_nsstress, eng_grpcstress,
+reg("C07", [eng_mailstress, eng_burst, eng_abandon, eng_pull_limit, eng_pushstress, eng_deletestress, eng_nsstress, eng_grpcstress,
             eng_stream_flood],
     rule="burst: 17-70 calls (Get/Pull/Ack/List, one or two DeleteSubscription, one or two Publish, sometimes DeleteTopic) "
          "started without letting the runtime settle, seeded select!/scheduling order; after settling every call must "
@@ -1678,7 +1727,7 @@ def eng_concurrent_publish(ctx):
 
 reg("C08", [eng_data_random(M.mon_order, {"PUB"}, streams=True, tag="data-stream-random"),
             eng_data_enum(M.mon_order, {"PUB"}), eng_concurrent_publish,
-            eng_wait_random(M.mon_order, {"PUB"}), eng_orderstress, eng_requeue_order],
+            eng_wait_random(M.mon_order, {"PUB"}), eng_orderstress, eng_requeue_order, eng_ordering_keys],
     rule="random and exhaustive sequential scripts (ids, first deliveries, redeliveries out of order); "
          "concurrent-publish: 2-6 Publish calls to one topic started without letting the runtime settle (seeded), two "
          "subscriptions, one stream and pulls of several sizes, a nack in between - ids and first-delivery order are "
@@ -1728,7 +1777,12 @@ def eng_push(ctx):
         return out
     # an endpoint that takes 11 s to accept, within a 60 s ack deadline (11 s of real time; the model has no clock for
     # an answer, so the case is judged on the endpoint's own record)
-    return ctx.seq("push-slow", gen.push_slow_cases(), triggers={"ROUND"}, monitor=M.mon_push, always_monitor=True, model_free=True)
+    out = ctx.seq("push-slow", gen.push_slow_cases(), triggers={"ROUND"}, monitor=M.mon_push, always_monitor=True, model_free=True)
+    if out:
+        return out
+    # deletion in the middle of a page of the real loop (real time, no model: judged on the endpoint's record)
+    return ctx.seq("push-delete", gen.push_delete_cases(), triggers={"LOOPDEL"}, monitor=M.mon_push_delete,
+                   always_monitor=True, model_free=True)
 
 
 reg("C14", [eng_push, eng_control_random(None, {"CS"}), lambda ctx: eng_registry_enum(ctx)],
